@@ -171,6 +171,17 @@ def gen_cases(rng: Rng, tier):
         yield dict(kind="ufpca", method=method, normalize=bool((i // 2) % 2), score="NumInt" if method == "covariance" else "InnPro",
                    sel=["all"] if method == "covariance" else ["int", 1], ck=f"grid:{label}", dim=1, t=Svec(t), X=Smat(X),
                    a="1", b="-1/2", seed=rng.subseed())
+    # thresholds inside scoring (every run): PACE on smooth curves whose estimated noise variance lies on both sides of the
+    # constants of the scoring code (an amplitude ladder 4^-k moves it from ~1e-1 down to ~1e-9, across tol = 1e-4), with
+    # and without normalisation, default and user-supplied `tol`; stored vs explicitly passed training curves
+    base_t = grid(rng, rng.randint(7, 9), uniform=True)
+    base_X, _ = curves(rng, 6, base_t, "smooth")
+    for k in (0, 2, 4, 5, 6, 7, 8, 10, 13):
+        for method in (("covariance",) if k % 2 else ("covariance", "inner-product")):
+            sc = Fraction(1, 2 ** k)
+            yield dict(kind="ufpca", method=method, normalize=False, score="PACE", sel=["int", 2], ck=f"pace-threshold-2^-{k}", dim=1,
+                       t=Svec(base_t), X=Smat([[x * sc for x in r] for r in base_X]), scale=rs(sc), a="1", b="-1/2", seed=rng.subseed(),
+                       tol=rs(rng.choice([Fraction(1, 100), Fraction(1, 10 ** 8), Fraction(1, 10 ** 4)])))
     # amplitude sweep (every run): data × 2^e, e = ±30, ±20 (≈ 1e-9 … 1e9), no normalisation, natural scores
     for i, e in enumerate([-30, 30, -20, -30]):
         method = ["covariance", "inner-product"][i % 2]
@@ -471,6 +482,12 @@ def _run_ufpca(case, est=None, holder=None):
         out["s_none"], out["s_none_err"] = (None if s_none is None else np.asarray(s_none, dtype=float).tolist()), e1
         s_train, e2 = _try(lambda: est.transform(_fd(case), method=score, method_smoothing=None))
         out["s_train"], out["s_train_err"] = (None if s_train is None else np.asarray(s_train, dtype=float).tolist()), e2
+        if "tol" in case and score == "PACE":
+            tol = float(F(case["tol"]))
+            a_, ea = _try(lambda: est.transform(None, method="PACE", tol=tol))
+            b_, eb = _try(lambda: est.transform(_fd(case), method="PACE", method_smoothing=None, tol=tol))
+            out["s_none_tol"] = None if a_ is None else np.asarray(a_, dtype=float).tolist()
+            out["s_train_tol"] = None if b_ is None else np.asarray(b_, dtype=float).tolist()
         # InnPro must be refused on a covariance fit
         if case["method"] == "covariance":
             _, e3 = _try(lambda: est.transform(None, method="InnPro"))
@@ -897,7 +914,14 @@ def _oracle_one(case, impl):
                     if np.abs((S1 - S0) - pred).max() <= 1e-6 * max(sc, np.abs(pred).max()):
                         causes.append(UNCENTRED)
                 k = int(np.abs(S1 - S0).max(axis=0).argmax())
-                bad("transform_training", f"transform(training data) differs from transform(None) by {np.abs(S1 - S0).max():.3g} (component {k}, normalize={case['normalize']})", causes)
+                bad("transform_training", f"transform(training data) differs from transform(None) by {np.abs(S1 - S0).max():.3g} (component {k}, normalize={case['normalize']}, score {score}, estimated noise variance {impl['noise']!r})", causes)
+    # --- the same with a user-supplied `tol` (PACE)
+    if impl.get("s_none_tol") is not None and impl.get("s_train_tol") is not None and not case["normalize"]:
+        A_, B_ = np.array(impl["s_none_tol"], dtype=float), np.array(impl["s_train_tol"], dtype=float)
+        if np.all(np.isfinite(A_)) and np.all(np.isfinite(B_)):
+            sct = max(np.abs(A_).max(), np.abs(B_).max(), 1e-300)
+            if A_.shape != B_.shape or np.abs(A_ - B_).max() > 1e-8 * sct:
+                bad("transform_training", f"PACE with tol={case['tol']}: transform(training data) differs from transform(None) by {np.abs(A_ - B_).max():.3g} (scores up to {sct:.3g}; estimated noise variance {impl['noise']!r})")
     # --- round trip for the natural scores when the retained components span the centred data
     if natural and impl.get("rec") is not None and K:
         Z = (X - mean) / r
